@@ -747,7 +747,9 @@ class Body:
                 o = ("proj", o, ("f", e[2]))
             elif e[0] == "d":
                 o = ("proj", o, ("d", e[1]))
-            elif e[0] in ("i", "ci"):
+            elif e[0] == "i":
+                o = ("proj", o, ("i", e[1]))
+            elif e[0] == "ci":
                 o = ("proj", o, ("i",))
             else:
                 o = ("proj", o, ("o",))
